@@ -17,4 +17,14 @@ def regen():
         write_if_changed(d / "Guards.v", guards_defs.render())
     except Exception as e:
         errs.append(("Guards.v", f"{type(e).__name__}: {e}"))
+    try:  # C16(c): the shipped core YAML files as a Model/Emit.v closure, and what core_defs.py contains
+        from .translate import coredefs
+        write_if_changed(d / "CoreYaml.v", coredefs.render_core_yaml())
+    except Exception as e:
+        errs.append(("CoreYaml.v", f"{type(e).__name__}: {e}"))
+    try:
+        from .translate import coredefs
+        write_if_changed(d / "CoreDefs.v", coredefs.render_core_defs())
+    except Exception as e:
+        errs.append(("CoreDefs.v", f"{type(e).__name__}: {e}"))
     return errs
